@@ -97,6 +97,18 @@ pub open spec fn committed_single(o: World, n: World, op: OpG) -> bool {
     requires old(w).txs.len() > 0 ==> last(*old(w)).finished,
     ensures r is Ok ==> committed_single(*old(w), *final(w), OpG::Remove), // [C07:helper-is-one-committed-transaction]
 //@end
+//@extract src/tx/optimistic/keyspace.rs :: OptimisticTxKeyspace :: remove_weak world props=C07
+//@contract
+    requires old(w).txs.len() > 0 ==> last(*old(w)).finished,
+    ensures r is Ok ==> committed_single(*old(w), *final(w), OpG::RemoveWeak), // [C07:helper-is-one-committed-transaction]
+//@end
+//@extract src/tx/optimistic/keyspace.rs :: OptimisticTxKeyspace :: take world props=C07+C08
+//@world self.fetch_update
+//@contract
+    requires old(w).txs.len() > 0 ==> last(*old(w)).finished,
+    ensures r is Ok ==> committed_single(*old(w), *final(w), OpG::FetchUpdate) // [C07:helper-is-one-committed-transaction]
+            && res_id(r->Ok_0) == last(*final(w)).result, // [C07:helper-returns-the-result-of-the-attempt-that-committed] [C08:helper-returns-the-result-of-the-attempt-that-committed]
+//@end
 //@extract src/tx/optimistic/keyspace.rs :: OptimisticTxKeyspace :: fetch_update world no_decreases props=C07
 //@contract
     requires old(w).txs.len() > 0 ==> last(*old(w)).finished,
